@@ -192,3 +192,32 @@ m("C05", "ascending-index-removal", "src/rules/remove_nil_declarations.rs",
   "            for index in pop_extra_value_at.into_iter().rev() {", "            for index in pop_extra_value_at.into_iter() {", "C05.index|")
 m("C01", "ascending-index-removal", "src/rules/remove_nil_declarations.rs",
   "            for index in pop_extra_value_at.into_iter().rev() {", "            for index in pop_extra_value_at.into_iter() {", "C01.index|")
+# ---- third round: rules added for the second seed batch -------------------------------------------
+m("C04", "argument-string-shifted-twice", "src/nodes/arguments.rs",
+  "            Arguments::Tuple(tuple) => tuple.shift_token_line(amount),\n            Arguments::String(_) | Arguments::Table(_) => {}",
+  "            Arguments::Tuple(tuple) => tuple.shift_token_line(amount),\n            Arguments::String(string) => string.shift_token_line(amount),\n            Arguments::Table(_) => {}",
+  "C04.once|shift_token_line|nodes::arguments::Arguments.String.0")
+m("C12", "zero-width-reference-skipped", "src/nodes/token.rs",
+  "    pub(crate) fn replace_referenced_tokens(&mut self, code: &str) {\n        if let Position::LineNumberReference {\n            start,\n            end,\n            line_number,\n        } = self.position\n        {",
+  "    pub(crate) fn replace_referenced_tokens(&mut self, code: &str) {\n        if let Position::LineNumberReference {\n            start,\n            end,\n            line_number,\n        } = self.position\n            && start < end\n        {",
+  "C12.resolve|unguarded|replace_referenced_tokens#0")
+m("C06", "literal-given-to-%s-bare", "src/rules/remove_interpolated_string.rs",
+  "                        ReplacementStrategy::ToStringSpecifier => value,\n",
+  "                        ReplacementStrategy::ToStringSpecifier => value,\n                        ReplacementStrategy::StringSpecifier if matches!(value, Expression::Nil(_)) => value,\n",
+  "C06.tostring|wraps|StringSpecifier")
+m("C08", "elseif-condition-effects-ignored", "src/process/evaluator/mod.rs",
+  "                if self.has_side_effects(branch.get_condition())\n                    || self.has_side_effects(branch.get_result())\n                {",
+  "                if self.has_side_effects(branch.get_result()) {",
+  "C08.if-effects|unknown-condition|asks|ElseIfExpressionBranch.condition")
+m("C01", "elseif-condition-effects-ignored", "src/process/evaluator/mod.rs",
+  "                if self.has_side_effects(branch.get_condition())\n                    || self.has_side_effects(branch.get_result())\n                {",
+  "                if self.has_side_effects(branch.get_result()) {",
+  "C01.if-effects|unknown-condition|asks|ElseIfExpressionBranch.condition")
+m("C02", "cast-check-only-for-binary-left", "src/nodes/expressions/binary.rs",
+  "            || (matches!(self, BinaryOperator::LowerThan)\n                && ends_with_type_cast_to_type_name_without_type_parameters(left))",
+  "            || (matches!(self, BinaryOperator::LowerThan)\n                && matches!(left, Expression::Binary(_) | Expression::TypeCast(_))\n                && ends_with_type_cast_to_type_name_without_type_parameters(left))",
+  "C02.needs|left|cast-before-<|Unary")
+m("C02", "left-assoc-operand-bare", "src/nodes/expressions/binary.rs",
+  "                if self.is_left_associative() {\n                    self.precedes(left.operator())\n                } else {\n                    !left.operator().precedes(*self)\n                }",
+  "                self.precedes(left.operator())",
+  "C02.needs|left|binary|assoc=False,parent>child=False,child>parent=False")
